@@ -171,6 +171,9 @@ func run(args []string) {
 		fmt.Fprintf(os.Stderr, "[symx] %s: paths=%d ends=%v violations=%d complete=%v queries=%d (unknown %d) wall=%.1fs\n",
 			e, res.Paths, res.Ends, len(res.Violations), o.Complete, o.Queries, o.Unknown, o.WallS)
 		for k, ss := range res.EndSamples {
+			if k == "ASSUME" || k == "INFEASIBLE" {
+				continue
+			}
 			for _, s := range ss {
 				if len(s) > 600 {
 					s = s[:600]
